@@ -557,15 +557,16 @@ def oracles(r):
             name = c["spec"][0]
             wrote = c["end_token"] > c["first_token"]
             if name in EVENT_WRITE_CALLS and wrote and c["outcome"] is None and c["t_start"] - F_start > MAX_AGE:
-                single = name != "insert_many" or len(c["spec"][2]) == 0
-                if single and o["issued"] not in J:
+                # "the write ... before it returns" is the CALL, also for a list with id-carrying events
+                # (several UPDATE statements and a bulk INSERT): nothing of it may be pending on return
+                if o["issued"] not in J:
                     v18.append(("C18:old-write-not-flushed",
                                 f"call #{ci} {c['spec']} issued {(c['t_start'] - F_start) / S:.6f} s after the last instant at "
+                                f"which nothing was pending returned with {o['issued'] - max(J)} of its "
+                                f"{c['end_token'] - c['first_token']} writes uncommitted"
+                                if o['issued'] - max(J) <= c['end_token'] - c['first_token'] else
+                                f"call #{ci} {c['spec']} issued {(c['t_start'] - F_start) / S:.6f} s after the last instant at "
                                 f"which nothing was pending returned with {o['issued'] - max(J)} writes uncommitted"))
-                if not single and max(J) < c["first_token"] + 1:
-                    v18.append(("C18:old-write-not-flushed",
-                                f"call #{ci} {c['spec']}: its first upsert, issued {(c['t_start'] - F_start) / S:.6f} s after "
-                                f"the last flush, is not committed when the call returns"))
             for w in range(max(J), o["issued"]):
                 if rec.issue_time[w] - F > MAX_AGE:
                     v18.append(("C18:pending-write-too-old" + partial,
